@@ -1,6 +1,163 @@
-(* C13 - placeholder while the development is in progress *)
-From Coq Require Import List ZArith.
-From EpyV Require Import Model.NewmanZiff.
+(* C13 - Newman-Ziff percolation reports true component sizes at every sample.
+   Only statements here; every proof is [exact <lemma of Proofs/NewmanZiff*.v>].
+
+   Vocabulary (Proofs/NewmanZiffUF.v, NewmanZiffQuery.v, NewmanZiffSampling.v, NewmanZiffMain.v):
+     path a n r d        following parent entries of the array a from n reaches the root r in d steps
+     occ a n             n is an occupied node (in range, entry is not the marker N+1)
+     conn es x y         reflexive-symmetric-transitive closure of the edge list es
+     UF a es             a is a union-find forest for (occupied nodes, es): every occupied node reaches a
+                         root in fewer steps than the size stored there (acyclic; rootOf terminates within
+                         fuel N), edge endpoints share their root, every node is connected to its root,
+                         a root stores minus the number of nodes in its tree
+     Inv s               UF (comp s) (wedges s), _gcc is the largest stored size, _ncomponents the number of roots
+     class_size / largest_class / n_classes / size_spec
+                         component sizes, largest component, number of components of a graph (V, es),
+                         defined from conn only (no reference to the array)
+     reports_true N o    what the sample o reports (largest component, number of components, component
+                         size of each node 0..N-1) is true of the working network recorded in o
+     least_reach k M p   k is the first number of occupations with k/M >= p (exact rationals)
+     eeq es es'          the same set of undirected edges *)
+From Coq Require Import List ZArith QArith Bool Arith Permutation Sorted.
+From EpyV Require Import Lib.Prelude Model.Percolate Model.NewmanZiff.
+From EpyV Require Import Proofs.NewmanZiffUF Proofs.NewmanZiffOcc Proofs.NewmanZiffQuery Proofs.NewmanZiffSampling Proofs.NewmanZiffMain.
 Import ListNotations.
-Example C13_placeholder : get [(-1)%Z] 0 = (-1)%Z.
-Proof. reflexivity. Qed.
+Local Open Scope nat_scope.
+
+(* ---- the union-find invariant ---- *)
+
+(* the classes of rootOf are exactly the connected components *)
+Theorem C13_uf_classes : forall a es, UF a es -> forall n m r s d e,
+  path a n r d -> path a m s e -> (r = s <-> conn es n m).
+Proof. exact uf_classes. Qed.
+
+(* rootOf (fuel N, path compression included) returns the root and keeps the invariant *)
+Theorem C13_uf_inv_rootOf : forall a es n, UF a es -> occ a n ->
+  exists a' r d, root a n = (a', r) /\ path a n r d /\ is_root a' r /\ UF a' es /\ length a' = length a.
+Proof. exact root_preserves. Qed.
+
+(* BondPercolation.setUp establishes it (N >= 1 nodes), occupy preserves it *)
+Theorem C13_uf_init_bond : forall nodes, 1 <= length nodes -> Inv (init_bond nodes).
+Proof. exact init_bond_Inv. Qed.
+
+Theorem C13_uf_inv : forall s n m, Inv s -> occ (comp s) n -> occ (comp s) m ->
+  let s' := occupy_bond s (n, m) in
+  Inv s' /\ length (comp s') = length (comp s) /\ (forall x, occ (comp s') x <-> occ (comp s) x)
+  /\ eeq (wedges s') ((n, m) :: wedges s) /\ wnodes s' = wnodes s /\ (gcc s <= gcc s')%Z.
+Proof. exact occupy_bond_spec. Qed.
+
+(* SitePercolation.setUp establishes it, occupy (node not yet occupied) preserves it together with
+   "the working network is the sub-network induced by the occupied nodes" (SInv) *)
+Theorem C13_uf_init_site : forall adj nodes, SInv adj (init_site nodes).
+Proof. exact init_site_SInv. Qed.
+
+Theorem C13_uf_inv_site : forall N adj s nr, adj_ok N adj -> SInv adj s -> length (comp s) = N -> nr < N -> ~ In nr (wnodes s) ->
+  let s' := occupy_site adj s nr in
+  SInv adj s' /\ length (comp s') = N /\ wnodes s' = wnodes s ++ [nr] /\ (gcc s <= gcc s')%Z.
+Proof. exact occupy_site_spec. Qed.
+
+(* ---- the queries report the true values ---- *)
+
+Theorem C13_component_size : forall a es (V : nat -> Prop) n, UF a es -> (forall x, V x <-> occ a x) -> occ a n ->
+  exists a' c, componentSize_bond a n = (a', c) /\ UF a' es /\ class_size V es n c.
+Proof. exact componentSize_bond_true. Qed.
+
+Theorem C13_component_size_site : forall a es (V : nat -> Prop) n, UF a es -> (forall x, V x <-> occ a x) -> n < length a ->
+  exists a' c, componentSize_site a n = (a', c) /\ compr a a' /\ size_spec V es n c.
+Proof. exact componentSize_site_spec. Qed.
+
+Theorem C13_site_unoccupied : forall adj s n, SInv adj s -> n < length (comp s) -> ~ In n (wnodes s) ->
+  componentSize_site (comp s) n = (comp s, 0%Z).
+Proof. exact site_unoccupied_zero. Qed.
+
+Theorem C13_gcc : forall s (V : nat -> Prop), Inv s -> (forall x, V x <-> occ (comp s) x) ->
+  largest_class V (wedges s) (gcc s).
+Proof. intros s V I HV. exact (gcc_true (comp s) (wedges s) V (inv_uf s I) HV (gcc s) (inv_gcc s I)). Qed.
+
+Theorem C13_ncomponents : forall s (V : nat -> Prop), Inv s -> (forall x, V x <-> occ (comp s) x) ->
+  n_classes V (wedges s) (ncomp s).
+Proof. intros s V I HV. exact (nc_true (comp s) (wedges s) V (inv_uf s I) HV (ncomp s) (inv_nc s I)). Qed.
+
+(* ---- the run: one sample per requested point, labelled with it, in order, each taken after the first k
+   occupations with k/M >= p, each reporting the truth about the working network, which is the sub-network
+   of the elements occupied so far; the series never decreases ---- *)
+
+Theorem C13_samples : forall nodes es0 perm ps,
+  nodes_ok nodes -> 1 <= length nodes -> Forall (valid_edge (length nodes)) es0 -> 1 <= length es0 ->
+  is_perm perm (length es0) -> StronglySorted Qlt ps -> Forall (fun p => (0 <= p)%Q /\ (p <= 1)%Q) ps ->
+  let es := apply_perm (0, 0) es0 perm in
+  exists s' os n, do_bond nodes es0 perm ps = (s', os, n)
+    /\ Permutation es es0
+    /\ Forall2 (bond_sample_ok nodes es) ps os
+    /\ map fst (series os) = ps
+    /\ StronglySorted Z.le (map snd (series os)).
+Proof. exact do_bond_samples. Qed.
+
+Theorem C13_samples_site : forall adj nodes perm ps,
+  nodes_ok nodes -> NoDup nodes -> 1 <= length nodes -> adj_ok (length nodes) adj ->
+  is_perm perm (length nodes) -> StronglySorted Qlt ps -> Forall (fun p => (0 <= p)%Q /\ (p <= 1)%Q) ps ->
+  let ns := apply_perm 0 nodes perm in
+  exists s' os n, do_site nodes adj perm ps = (s', os, n)
+    /\ Permutation ns nodes
+    /\ Forall2 (site_sample_ok adj (length nodes) ns) ps os
+    /\ map fst (series os) = ps
+    /\ StronglySorted Z.le (map snd (series os)).
+Proof. exact do_site_samples. Qed.
+
+(* the working network seen by a sample is exactly the sub-network of the elements occupied so far *)
+Theorem C13_working_network : forall nodes es p o, bond_sample_ok nodes es p o ->
+  exists k, least_reach k (length es) p /\ o_wnodes o = nodes /\ eeq (o_wedges o) (firstn k es).
+Proof. intros nodes es p o (_ & k & H1 & H2 & H3 & _). exists k. exact (conj H1 (conj H2 H3)). Qed.
+
+Theorem C13_working_network_site : forall adj N ns p o, site_sample_ok adj N ns p o ->
+  exists k, least_reach k (length ns) p /\ o_wnodes o = firstn k ns /\ induced adj (o_wnodes o) (o_wedges o).
+Proof. intros adj N ns p o (_ & k & H1 & H2 & H3 & _). exists k. exact (conj H1 (conj H2 H3)). Qed.
+
+(* requested point 0 (necessarily the first): the empty configuration *)
+Theorem C13_first_empty : forall nodes es p o, nodes_ok nodes -> 1 <= length nodes -> bond_sample_ok nodes es p o -> (p == 0)%Q ->
+  o_wnodes o = nodes /\ o_wedges o = [] /\ o_gcc o = 1%Z.
+Proof. exact bond_first_empty. Qed.
+
+Theorem C13_first_empty_site : forall adj N ns p o, site_sample_ok adj N ns p o -> (p == 0)%Q ->
+  o_wnodes o = [] /\ o_wedges o = [] /\ o_gcc o = 0%Z /\ o_ncomp o = 0%Z.
+Proof. exact site_first_empty. Qed.
+
+(* requested point 1 (necessarily the last): the complete network (and, by reports_true, its largest component) *)
+Theorem C13_last_complete : forall nodes es p o, 1 <= length es -> bond_sample_ok nodes es p o -> (p == 1)%Q ->
+  o_wnodes o = nodes /\ eeq (o_wedges o) es.
+Proof. exact bond_last_complete. Qed.
+
+Theorem C13_last_complete_site : forall adj N ns p o, 1 <= length ns -> site_sample_ok adj N ns p o -> (p == 1)%Q ->
+  o_wnodes o = ns /\ induced adj ns (o_wedges o).
+Proof. exact site_last_complete. Qed.
+
+(* the sampling rule alone, for any state, occupation and sample functions (also the library's own sample()) *)
+Theorem C13_sampling_rule : forall (St El Ob : Type) (occupy : St -> El -> St) (sample : Q -> St -> St * Ob)
+  (all : list El) (R : list El -> St -> Prop),
+  (forall pre e post s, all = pre ++ e :: post -> R pre s -> R (pre ++ [e]) (occupy s e)) ->
+  (forall pre p s, R pre s -> R pre (fst (sample p s))) ->
+  1 <= length all ->
+  forall ps s0, R [] s0 -> StronglySorted Qlt ps -> Forall (fun p => (0 <= p)%Q /\ (p <= 1)%Q) ps ->
+  exists s' os n, percolate occupy sample all ps s0 = (s', os, n)
+    /\ Forall2 (taken sample all R) ps os /\ R (firstn n all) s' /\ n <= length all
+    /\ (forall p, In p ps -> exists k, least_reach k (length all) p /\ k <= n).
+Proof. exact @percolate_spec. Qed.
+
+(* ---- non-vacuity: a triangle with a pendant edge, a non-trivial shuffle, points 0, 1/2, 1 ---- *)
+Example C13_example :
+  let nodes := [0; 1; 2; 3] in let es0 := [(0, 1); (1, 2); (0, 2); (2, 3)] in let perm := [2; 0; 3; 1] in
+  let ps := [0; 1 # 2; 1]%Q in
+  nodes_ok nodes /\ Forall (valid_edge (length nodes)) es0 /\ is_perm perm (length es0)
+  /\ StronglySorted Qlt ps /\ Forall (fun p => (0 <= p)%Q /\ (p <= 1)%Q) ps
+  /\ Inv (init_bond nodes)
+  /\ (let '(_, os, n) := do_bond nodes es0 perm ps in (series os, map o_ncomp os, map o_sizes os, n))
+     = ([(0, 1%Z); (1 # 2, 3%Z); (1, 4%Z)]%Q, [4; 2; 1]%Z, [[1; 1; 1; 1]; [3; 3; 3; 1]; [4; 4; 4; 4]]%Z, 4).
+Proof. exact example_bond. Qed.
+
+Example C13_example_site :
+  let nodes := [0; 1; 2; 3] in let adj := fun n => nth n [[1; 2]; [0; 2]; [1; 0; 3]; [2]] [] in let perm := [3; 0; 2; 1] in
+  let ps := [1 # 4; 3 # 4]%Q in
+  nodes_ok nodes /\ NoDup nodes /\ adj_ok (length nodes) adj /\ is_perm perm (length nodes)
+  /\ StronglySorted Qlt ps /\ Forall (fun p => (0 <= p)%Q /\ (p <= 1)%Q) ps
+  /\ (let '(_, os, n) := do_site nodes adj perm ps in (series os, map o_ncomp os, map o_sizes os, map o_wnodes os, n))
+     = ([(1 # 4, 1%Z); (3 # 4, 3%Z)]%Q, [1; 1]%Z, [[0; 0; 0; 1]; [3; 0; 3; 3]]%Z, [[3]; [3; 0; 2]], 3).
+Proof. exact example_site. Qed.
